@@ -370,10 +370,16 @@ class LeanSession:
 
     def start(self):
         self.p = subprocess.Popen(['lake', 'env', 'lean', '--run', os.path.join('Drivers', self.driver + '.lean')], cwd=LEAN,
-                                  stdin=subprocess.PIPE, stdout=subprocess.PIPE, stderr=subprocess.PIPE, text=True, bufsize=1)
+                                  stdin=subprocess.PIPE, stdout=subprocess.PIPE, stderr=subprocess.PIPE, text=True, bufsize=1,
+                                  start_new_session=True)   # own process group: `lake env` spawns lean as a child
 
     def stop(self):
         if self.p is not None:
+            try:
+                import signal
+                os.killpg(self.p.pid, signal.SIGKILL)   # kill lake AND the lean child
+            except Exception:
+                pass
             try:
                 self.p.kill(); self.p.wait(10)
             except Exception:
